@@ -484,11 +484,13 @@ func run(tapeJSON json.RawMessage, res *core.Result) {
 	nonces := map[int64]int{}
 	lastVerdict := map[int]string{}
 	firstWrite := map[string]int64{} // request bytes -> instant of their first transmission to any endpoint
+	writesByTask := map[int][]int64{} // instants of every transmission of a task, ascending
 	for _, ev := range net.Events() {
 		if ev.What == "request" {
 			if _, ok := firstWrite[ev.ReqID]; !ok {
 				firstWrite[ev.ReqID] = ev.At
 			}
+			writesByTask[ev.Task] = append(writesByTask[ev.Task], ev.At)
 		}
 	}
 	var hintsAt time.Time // when the KDC first answered an AS request of this client with its pre-authentication hints
@@ -540,14 +542,23 @@ func run(tapeJSON json.RawMessage, res *core.Result) {
 		// after transmissions to other servers or over the other transport have timed out (an outage)
 		// is older by what those attempts took
 		tol := 3 * time.Second
-		if fw, ok := firstWrite[world.ReqID(rq.Raw)]; ok && at(rq.At) > fw {
+		if fw, ok := firstWrite[world.ReqID(rq.Raw)]; ok && at(rq.At) >= fw {
+			// (and a request that follows another in the same exchange - the pre-authenticated second
+			// AS-REQ, the next referral hop - keeps the times of the exchange's beginning: the chain of
+			// this task's transmissions is followed back while they are less than two time-outs apart)
+			evs := writesByTask[rq.Task]
+			i := sort.Search(len(evs), func(i int) bool { return evs[i] >= fw })
+			for i > 0 && fw-evs[i-1] < int64(11*time.Second) && at(rq.At)-evs[i-1] < int64(120*time.Second) {
+				i--
+				fw = evs[i]
+			}
 			tol += time.Duration(at(rq.At) - fw)
 			if at(rq.At)-fw > int64(time.Second) {
 				res.Stats["requests_delivered_after_failed_transmissions"]++
 			}
 		}
 		if x := q.Till.Sub(rq.At.Add(tktLife)); x > tol || x < -tol {
-			d["till"], d["expected"] = q.Till, rq.At.Add(tktLife)
+			d["till"], d["expected"], d["tolerance_ns"] = q.Till, rq.At.Add(tktLife), int64(tol)
 			viol(name+".till", d)
 		}
 		if renewLife != 0 && !renew {
